@@ -25,7 +25,7 @@ import copy
 import typing as T
 
 from ..core import Undecided, attr_chain, norm, short
-from ..paths import enumerate_paths
+from ..paths import enumerate_paths, Event
 from .. import tables
 from ..tables import Atom
 
@@ -62,6 +62,10 @@ class Row(tables.Row):
 
     def effs(self, kind: T.Optional[str] = None, own: bool = False) -> T.List[Eff]:
         return [i.eff for i in self.items if i.eff is not None and (kind is None or i.eff.kind == kind) and (not own or i.depth == 0)]
+
+    def through_handler(self) -> bool:
+        """The row continues in an `except` handler (spliced helper or tabulated with handlers): the exceptional continuation."""
+        return any(i.eff is not None and i.eff.kind == 'exc' for i in self.items)
 
     def inner_atoms(self) -> T.Set[Atom]:
         """Conditions evaluated inside spliced callees only (not by the tabulated body itself)."""
@@ -159,9 +163,24 @@ class Normal(ast.NodeTransformer):
     """Source-to-source normal form applied to every substituted expression: `Owner.m(self, a)` -> `self.m(a)`;
     a read of a class/module constant that folds to a text -> the text (`self._SKIP` -> 'SKIP')."""
 
-    def __init__(self, owner: str = '', texts: T.Optional[T.Callable[[str], T.Optional[str]]] = None):
+    def __init__(self, owner: str = '', texts: T.Optional[T.Callable[[str], T.Optional[str]]] = None,
+                 displays: T.Optional[T.Callable[[str], T.Optional[ast.Dict]]] = None):
         self.owner = owner
         self.texts = texts
+        self.displays = displays       # chain -> the dict display a constant table is bound to
+
+    def visit_Subscript(self, n: ast.Subscript) -> ast.AST:
+        self.generic_visit(n)
+        c = attr_chain(n.value) if isinstance(n.ctx, ast.Load) else None
+        d = self.displays(c) if (c and self.displays is not None) else None
+        if d is not None and all(isinstance(k, ast.Constant) for k in d.keys):
+            keys = [k.value for k in d.keys]      # type: ignore[union-attr]
+            if isinstance(n.slice, ast.Constant) and n.slice.value in keys:
+                return copy.deepcopy(d.values[keys.index(n.slice.value)])
+            if sorted(map(repr, keys)) == ['False', 'True'] and all(isinstance(k, bool) for k in keys):
+                # TABLE[flag] over a table keyed by the two booleans: the conditional expression it stands for
+                return ast.IfExp(test=n.slice, body=copy.deepcopy(d.values[keys.index(True)]), orelse=copy.deepcopy(d.values[keys.index(False)]))
+        return n
 
     def visit_Call(self, n: ast.Call) -> ast.AST:
         self.generic_visit(n)
@@ -225,16 +244,28 @@ def build(fn: T.Any, body: T.List[ast.stmt], name: str, seed: T.Optional[T.Dict[
 
     def helper_call(v: ast.AST, want_gen: bool, depth: int) -> T.Optional[T.Tuple[T.Any, T.Dict[str, ast.AST]]]:
         """(callee, {parameter: substituted operand}) when `v` is `self.h(...)` of a resolvable same-class helper."""
-        if helpers is None or depth >= 2 or not (isinstance(v, ast.Call) and isinstance(v.func, ast.Attribute)
-                                                 and isinstance(v.func.value, ast.Name) and v.func.value.id == 'self'):
+        if helpers is None or depth >= 2 or not isinstance(v, ast.Call):
             return None
-        callee = helpers(v.func.attr)
-        if callee is None or callee.decorator_list:
+        module_level = isinstance(v.func, ast.Name)
+        if module_level:
+            callee = helpers('.' + v.func.id)          # a module-level function of the same file (resolver convention: leading dot)
+        elif isinstance(v.func, ast.Attribute) and isinstance(v.func.value, ast.Name) and v.func.value.id == 'self':
+            callee = helpers(v.func.attr)
+        else:
+            return None
+        if callee is None:
+            return None
+        decos = [attr_chain(d) for d in callee.decorator_list]
+        if module_level:
+            if decos:
+                return None
+            decos = ['staticmethod']                   # no bound first parameter
+        if any(d != 'staticmethod' for d in decos) or isinstance(callee, ast.AsyncFunctionDef):
             return None
         is_gen = any(isinstance(n, (ast.Yield, ast.YieldFrom)) for n in ast.walk(callee))
         if is_gen != want_gen:
             return None
-        ps = [a.arg for a in callee.args.posonlyargs + callee.args.args][1:]
+        ps = [a.arg for a in callee.args.posonlyargs + callee.args.args][(0 if decos else 1):]
         if callee.args.vararg or callee.args.kwarg or callee.args.kwonlyargs or any(isinstance(a, ast.Starred) for a in v.args) or len(v.args) > len(ps):
             return None
         bound: T.Dict[str, ast.AST] = dict(zip(ps, v.args))
@@ -288,6 +319,11 @@ def build(fn: T.Any, body: T.List[ast.stmt], name: str, seed: T.Optional[T.Dict[
                                 ok = False
                                 break
                             continue
+                        if a.kind == 'is' and a.args[1] == 'None' and a.args[0].startswith('int(') and a.args[0].endswith(')'):
+                            if v:           # the result of int(...) is never None
+                                ok = False
+                                break
+                            continue
                         if a in st2.conds and st2.conds[a] != v:
                             ok = False
                             break
@@ -305,6 +341,32 @@ def build(fn: T.Any, body: T.List[ast.stmt], name: str, seed: T.Optional[T.Dict[
                 st.items.append(_mk(fr, None, True, Eff('exc', '', None, '', node), node))
             elif ev.kind == 'stmt':
                 s_ = node
+                if isinstance(s_, (ast.Assign, ast.AnnAssign)) and (isinstance(s_, ast.AnnAssign) or len(s_.targets) == 1) and s_.value is not None \
+                        and helper_call(s_.value, False, fr.depth) is not None:
+                    # x = self.h(...): splice the callee's paths, x receives what the path returns
+                    callee, bound = T.cast(T.Tuple[T.Any, T.Dict[str, ast.AST]], helper_call(s_.value, False, fr.depth))
+                    if id(callee) not in hpaths:
+                        hpaths[id(callee)] = enumerate_paths(callee.body, unroll=1, handlers=any(isinstance(n, ast.Try) for n in ast.walk(callee)))
+                    args = {pn: sub(x) for pn, x in bound.items()}
+                    tgt = s_.targets[0] if isinstance(s_, ast.Assign) else s_.target
+                    rest_events, rest_i, caller = events, i, fr
+                    for hp in hpaths[id(callee)]:
+                        if hp.outcome == 'raise':
+                            raise Undecided(f'{name}: helper {callee.name} can raise explicitly')
+                        st2 = st.copy()
+                        hfr = _Frame({pn: (x if _inlinable(x) else _placeholder(pn)) for pn, x in args.items()}, {}, fr.depth + 1, fr.shadow)
+                        cfr = _Frame(dict(caller.locals), caller.params, caller.depth, caller.shadow)
+
+                        def after(s3: _State, hf: _Frame, hp: T.Any = hp, cfr: _Frame = cfr) -> None:
+                            rv: ast.AST = ast.Constant(value=None)
+                            if hp.outcome == 'return' and hp.value is not None:
+                                rv = _Sub({**s3.fields, **hf.locals}, hf.params).visit(copy.deepcopy(hp.value))
+                                rv = normal.visit(rv) if normal is not None else rv
+                            synth = ast.copy_location(ast.Assign(targets=[tgt], value=ast.Name(id='_helper_result_', ctx=ast.Load())), s_)
+                            cfr.locals['_helper_result_'] = rv if _inlinable(rv) else _placeholder('helper result')
+                            proc([Event('stmt', synth, None)] + rest_events[rest_i:], 0, s3, cfr, done)
+                        proc(hp.events, 0, st2, hfr, after)
+                    return
                 if isinstance(s_, ast.Assign) and len(s_.targets) == 1:
                     v = sub(s_.value)
                     bind_walrus(s_.value)
@@ -378,7 +440,7 @@ def build(fn: T.Any, body: T.List[ast.stmt], name: str, seed: T.Optional[T.Dict[
                             st.items.append(_mk(fr, None, True, Eff('yieldfrom' if is_yf else 'call', '', v, '', s_), s_))
                             st.exprs.append((s_, v, len(st.items)))
                         if id(callee) not in hpaths:
-                            hpaths[id(callee)] = enumerate_paths(callee.body, unroll=1, handlers=handlers)
+                            hpaths[id(callee)] = enumerate_paths(callee.body, unroll=1, handlers=handlers or any(isinstance(n, ast.Try) for n in ast.walk(callee)))
                         args = {pn: sub(x) for pn, x in bound.items()}
                         rest_events, rest_i, caller = events, i, fr
                         for hp in hpaths[id(callee)]:
@@ -439,7 +501,9 @@ def build(fn: T.Any, body: T.List[ast.stmt], name: str, seed: T.Optional[T.Dict[
         seed_ = dict(seed or {})
         st0.fields = {k: v for k, v in seed_.items() if '.' in k}
         proc(p.events, 0, st0, _Frame({k: v for k, v in seed_.items() if '.' not in k}, param_names(fn), 0), finish)
-    return tables.Table(rows, name), (exit_box[0] or {})
+    tab = tables.Table([r for r in rows if not T.cast(Row, r).through_handler()], name)
+    tab.handler_rows = [r for r in rows if T.cast(Row, r).through_handler()]   # type: ignore[attr-defined]
+    return tab, (exit_box[0] or {})
 
 
 def expr_of(text: str) -> ast.AST:
